@@ -138,6 +138,11 @@ func genC11Big(r *Rng) *Scenario {
 	return sc
 }
 
+// lateFailingExpr: fails when evaluated, not when planned (no constant sub-expression to fold).
+func lateFailingExpr(r *Rng) string {
+	return pick(r, []string{"str(4 / int('0'))", "str(7 / (strlen('a') - 1))", "('x' + str(9 / int('0')))", "str(4 / (2 - 2))"})
+}
+
 func genC12Big(r *Rng) *Scenario {
 	sc := &Scenario{Family: "big", Cfg: Config{Batch: pick(r, bigBatches), Cache: r.Bool(), Lazy: r.Bool()}, Init: []KV{}}
 	lit := func(s string) string { return quote(s) }
@@ -183,7 +188,7 @@ func genC12Big(r *Rng) *Scenario {
 			at = m - 1
 		}
 		put.Pairs[at].Fail = "value"
-		put.Pairs[at].VT = failingExpr(r)
+		put.Pairs[at].VT = lateFailingExpr(r)
 	default: // long keys and values
 		for j := 0; j < r.Range(2, 6); j++ {
 			k := fmt.Sprintf("L%d_", j) + strings.Repeat("k", pick(r, []int{255, 256, 1000, 65535, 65536, 70000}))
@@ -218,14 +223,14 @@ func genC12Big(r *Rng) *Scenario {
 			rem.Pairs[(j*7)%len(rem.Pairs)] = HistPair{K: put.Pairs[1%len(put.Pairs)].K, KT: lit(put.Pairs[1%len(put.Pairs)].K)}
 		}
 	}
-	if r.Chance(0.35) && len(rem.Pairs) > 1000 {
+	if r.Chance(0.5) && len(rem.Pairs) > 1000 {
 		// a key expression that fails far into the list: nothing at all may be removed
 		at := pick(r, []int{len(rem.Pairs) - 1, 1025, 4097, 4100, 65537, len(rem.Pairs) / 2})
 		if at >= len(rem.Pairs) {
 			at = len(rem.Pairs) - 1
 		}
 		rem.Pairs[at].Fail = "key"
-		rem.Pairs[at].KT = failingExpr(r)
+		rem.Pairs[at].KT = lateFailingExpr(r)
 	}
 	sc.Hist = append(sc.Hist, rem)
 	if !rem.ExpectFail() {
